@@ -288,6 +288,15 @@ static enum DeviceStatusCode drv_describe(const struct Driver* d, struct DeviceI
 {
     (void)d;
     if (i >= NDEV) return Device_Err;
+    if (g_mock.just_opened[i]) {
+        // driver_open_device describes the device it has just opened; a failure here must not leak the open device
+        g_mock.just_opened[i] = 0;
+        if (g_mock.desc_fails[i] > 0) {
+            g_mock.desc_fails[i]--;
+            drvlog((int)i, "describe", "-> err (fault)");
+            return Device_Err;
+        }
+    }
     memset(id, 0, sizeof(*id));
     id->device_id = (uint8_t)i;
     id->kind = g_table[i].kind;
@@ -324,6 +333,8 @@ static enum DeviceStatusCode drv_open(struct Driver* d, uint64_t i, struct Devic
                                        .reserve_image_shape = sto_reserve };
         *out = &s->storage.device;
     }
+    (*out)->identifier.device_id = (uint8_t)i; // so that close() knows the device even if describe() never filled the identifier
+    g_mock.just_opened[i] = 1;
     drvlog((int)i, "open", "-> ok");
     return Device_Ok;
 }
